@@ -69,6 +69,33 @@ const ZOBRIST: ZobristConstants = {
     }
 };
 
+/// Verification hook (compiled only with `--cfg cozy_chess_verif`): a copy of the Zobrist key table.
+#[cfg(cozy_chess_verif)]
+#[doc(hidden)]
+#[derive(Debug, Clone)]
+pub struct VerifZobristKeys {
+    /// `[color][piece][square]`
+    pub pieces: [[[u64; Square::NUM]; Piece::NUM]; Color::NUM],
+    /// `[color][file]`
+    pub castle_rights: [[u64; File::NUM]; Color::NUM],
+    /// `[file]`
+    pub en_passant: [u64; File::NUM],
+    /// Key XORed in when black is to move.
+    pub black_to_move: u64
+}
+
+/// Verification hook (compiled only with `--cfg cozy_chess_verif`): read the Zobrist key table.
+#[cfg(cozy_chess_verif)]
+#[doc(hidden)]
+pub fn __verif_zobrist_keys() -> VerifZobristKeys {
+    VerifZobristKeys {
+        pieces: [ZOBRIST.color[0].pieces, ZOBRIST.color[1].pieces],
+        castle_rights: [ZOBRIST.color[0].castle_rights, ZOBRIST.color[1].castle_rights],
+        en_passant: ZOBRIST.en_passant,
+        black_to_move: ZOBRIST.black_to_move
+    }
+}
+
 // This is Copy for performance reasons, since Copy guarantees a bit-for-bit copy.
 #[derive(Debug, Clone, Copy, PartialEq, Eq, Hash)]
 pub struct ZobristBoard {
